@@ -11,6 +11,7 @@ git -C /repo worktree remove --force $wt 2>/dev/null
 git -C /repo worktree add -q --detach $wt || exit 2
 export CARGO_NET_OFFLINE=true CARGO_TARGET_DIR=$wt/target
 cp "$d/demo.rs" $wt/crates/$crate/tests/seeded_demo.rs
+if grep -q "^autotests = false" $wt/crates/$crate/Cargo.toml; then printf '\n[[test]]\nname = "seeded_demo"\n' >> $wt/crates/$crate/Cargo.toml; fi
 cd $wt
 echo "== demo without patch"
 if timeout 1800 cargo test -q -p $crate --test seeded_demo --offline >$wt/demo_clean.log 2>&1; then echo "PASS (as required)"; else echo "FAIL: demo does not pass on the unchanged tree"; tail -20 $wt/demo_clean.log; exit 1; fi
